@@ -19,6 +19,7 @@ type Mutant struct {
 	Name   string   `json:"name"`
 	Expect []string `json:"expect"` // rule ids of which at least one must report; empty => benign (no report allowed)
 	Note   string   `json:"note,omitempty"`
+	Props  []string `json:"props,omitempty"` // benign edits: the properties whose rules look at the edited code
 	Edits  []struct {
 		File string `json:"file"`
 		Old  string `json:"old"`
@@ -148,7 +149,8 @@ func mutantsCmd(args []string) int {
 			}
 			props := []string{id}
 			if id == "benign" {
-				props = rules.IDs()
+				props = m.Props
+				m.Expect = nil
 			}
 			for _, pid := range props {
 				r := runMutant(*repo, *verif, pid, known, m)
@@ -194,7 +196,11 @@ func sensitivity(c *eng.Ctx, repo, verif, prop string, known []eng.KnownFinding)
 	}
 	for _, m := range benign {
 		m.Expect = nil
-		jobs = append(jobs, job{m, true})
+		for _, pp := range m.Props {
+			if pp == prop {
+				jobs = append(jobs, job{m, true})
+			}
+		}
 	}
 	results := make([]mutantResult, len(jobs))
 	sem := make(chan struct{}, 4)
